@@ -46,6 +46,7 @@ func rawResponder(handler http.Handler) http.Handler {
 		snapshotHeaders := respWriter.Header().Clone()
 		rawResponder := &rawResponseWriter{respWriter: respWriter}
 		ctx := context.WithValue(req.Context(), rawResponseKey{}, rawResponder)
+		shareTrailers(req)
 		req = req.WithContext(ctx)
 		handler.ServeHTTP(rawResponder, req)
 		rawResponder.finish(snapshotHeaders)
